@@ -361,6 +361,17 @@ func surfCryptoState(mode int, data []byte) surfaceResult {
 	return surfaceResult{reads: c.Reads + 2}
 }
 
+// surfCryptoBlob hands the whole input to the session-state decoder (a hand-off blob from another process).
+func surfCryptoBlob(mode int, data []byte) surfaceResult {
+	c := kit.NewMemConn()
+	s, err := stream.NewStreamWithCryptoState(c, data)
+	if err == nil {
+		_ = s.SendMessage(bg, []byte("x"))
+		_, _ = s.ExportCryptoState()
+	}
+	return surfaceResult{reads: 2}
+}
+
 func surfSharedPort(mode int, data []byte) surfaceResult {
 	_ = sharedport.VerifReadPassSockHeader(bytes.NewReader(data))
 	return surfaceResult{reads: 2}
@@ -368,7 +379,7 @@ func surfSharedPort(mode int, data []byte) surfaceResult {
 
 var surfaces = map[string]func(int, []byte) surfaceResult{
 	"framing": surfFraming, "typed": surfTyped, "server": surfServerHandshake, "serveconn": surfServeConn,
-	"client": surfClientHandshake, "text": surfText, "cryptostate": surfCryptoState, "sharedport": surfSharedPort,
+	"client": surfClientHandshake, "text": surfText, "cryptostate": surfCryptoState, "cryptoblob": surfCryptoBlob, "sharedport": surfSharedPort,
 }
 
 // check runs one input through one surface under the C13 oracle.
